@@ -170,7 +170,7 @@ fn run_case<G: AffineRepr>(env: &Env<G>, c: &Case) -> CaseOut {
             RefVerdict::Reject(_) => j.real.is_ok(),
             RefVerdict::Unknown(_) => {
                 o.count("reference-unknown", 1);
-                j.real.is_ok()
+                false
             }
         };
         if disagree {
